@@ -490,6 +490,11 @@ impl<E: ElemT> TableDrv<E> {
                     }
                     if ev.n == 1 {
                         std::mem::forget(it);
+                    } else if ev.n == 2 {
+                        it.fold((), |_, x| {
+                            y.push(e3(&x));
+                            kept.push(x);
+                        });
                     }
                 }
                 ev.y = y;
